@@ -261,6 +261,27 @@ def run(ctx: Any, prog: Program) -> None:
         if len(preds[mn_]) == 1:
             ctx.check('C19.H5', preds[mn_] == ['os.path.isfile'], fs, rawm[mn_], f'RawFileSystem.{mn_} asks {preds[mn_][0]}(): a folder of the file set then counts as an existing name here, while the in-memory, zip and VPK '
                       'backends (which index files only) say it is absent - and `name in fs` disagrees with `fs[name]`', func=f'RawFileSystem.{mn_}', text=f'{mn_} predicate')
+    # the directory walk: a folder argument that names nothing (or a file) lists nothing in the indexed backends - no key has it as a folder
+    # prefix.  os.walk() gives the same answer as long as its error policy stays the silent default; an `onerror` that raises turns
+    # "nothing inside" into an exception, which also aborts a chain walk that includes this member.
+    rwf = rawm['walk_folder']
+    walks = [c for c in ast.walk(rwf) if isinstance(c, ast.Call) and dotted(c.func) in ('os.walk', 'walk')]
+    ctx.shape('C19.H2', len(walks) == 1, fs, rwf, f'{len(walks)} os.walk() calls in RawFileSystem.walk_folder (1 confirmed by hand)', func='RawFileSystem.walk_folder', text='RawFileSystem.walk_folder: os.walk')
+    for wk in walks:
+        oe = next((k.value for k in wk.keywords if k.arg == 'onerror'), wk.args[2] if len(wk.args) >= 3 else None)
+        if oe is None or (isinstance(oe, ast.Constant) and oe.value is None):
+            ctx.check('C19.H2', True, fs, wk, 'default error policy', func='RawFileSystem.walk_folder', text='RawFileSystem.walk_folder: an unlistable folder is empty')
+            continue
+        hname = oe.attr if isinstance(oe, ast.Attribute) and dotted(oe.value) in ('self', 'cls', 'RawFileSystem') else (oe.id if isinstance(oe, ast.Name) else None)
+        hfn = rawm.get(hname) if hname in rawm else next((f_ for f_ in list(ast.walk(rwf)) + list(fs.tree.body) if isinstance(f_, ast.FunctionDef) and f_ is not rwf and f_.name == hname), None)
+        if isinstance(oe, ast.Lambda):
+            hfn = oe
+        if hfn is None:
+            ctx.shape('C19.H2', False, fs, wk, f'error handler `{U(oe)[:40]}` of os.walk() not resolved', func='RawFileSystem.walk_folder', text='RawFileSystem.walk_folder: an unlistable folder is empty')
+            continue
+        raises = [r for r in ast.walk(hfn) if isinstance(r, ast.Raise)]
+        ctx.check('C19.H2', not raises, fs, raises[0] if raises else wk, f'os.walk() in RawFileSystem.walk_folder is given an error handler that raises (`{U(raises[0]) if raises else ""}`): walking a name that is a file, or an '
+                  'unlistable folder, raises here while the in-memory, zip and VPK backends list nothing for it - and a chain walk containing this member is aborted', func='RawFileSystem.walk_folder', text='RawFileSystem.walk_folder: an unlistable folder is empty')
     # ---- H4 ----------------------------------------------------------------------------------------------------
     ch = fs.methods('FileSystemChain')
     gf = ch['_get_file']
@@ -454,7 +475,35 @@ def run(ctx: Any, prog: Program) -> None:
     src = U(wf)
     adds = [c for c in ast.walk(wf) if isinstance(c, ast.Call) and isinstance(c.func, ast.Attribute) and c.func.attr == 'add' and c.args and isinstance(c.args[0], ast.Name)]
     yields = [y for y in ast.walk(wf) if isinstance(y, ast.Yield) and y.value is not None]
-    if len(adds) != 1 or len(yields) != 1:
+    # the mapping form: `found[key] = file` in the loop, the values handed out afterwards
+    dstores = [n for n in ast.walk(wf) if isinstance(n, ast.Assign) and len(n.targets) == 1 and isinstance(n.targets[0], ast.Subscript) and isinstance(n.targets[0].value, ast.Name) and isinstance(n.value, ast.Name)]
+    setdefs = [c for c in ast.walk(wf) if isinstance(c, ast.Call) and isinstance(c.func, ast.Attribute) and c.func.attr == 'setdefault' and isinstance(c.func.value, ast.Name) and len(c.args) == 2]
+    yfroms = [y for y in ast.walk(wf) if isinstance(y, ast.YieldFrom)]
+    if not adds and (dstores or setdefs) and len(yfroms) == 1 and isinstance(yfroms[0].value, ast.Call) and isinstance(yfroms[0].value.func, ast.Attribute) and yfroms[0].value.func.attr == 'values':
+        dname = yfroms[0].value.func.value.id if isinstance(yfroms[0].value.func.value, ast.Name) else '?'
+        for ds in dstores:
+            if ds.targets[0].value.id != dname:        # type: ignore[attr-defined]
+                continue
+            tst = next((a.test for a in _anc19(fs, ds, wf) if isinstance(a, ast.If)), None)
+            guarded = tst is not None and isinstance(tst, ast.Compare) and len(tst.ops) == 1 and isinstance(tst.ops[0], ast.NotIn) and dotted(tst.comparators[0]) == dname and U(tst.left) == U(ds.targets[0].slice)
+            if tst is not None and not guarded:
+                ctx.shape('C19.H4', False, fs, ds, f'store into `{dname}` under `{U(tst)[:50]}` not recognised', func='FileSystemChain.walk_folder', text='de-duplicated walk keeps the first member')
+                continue
+            ctx.check('C19.H4', guarded, fs, ds, f'`{U(ds)}` replaces the file remembered for a name by the one from a later member: walk_folder_repeat visits members in priority order, so the listed file '
+                      'is the lowest-priority one while a lookup of the same name opens the first', func='FileSystemChain.walk_folder', text='de-duplicated walk keeps the first member')
+            key_e = ds.targets[0].slice
+            kd = [n.value for n in ast.walk(wf) if isinstance(n, ast.Assign) and isinstance(key_e, ast.Name) and dotted(n.targets[0]) == key_e.id]
+            ke = kd[0] if kd else key_e
+            fold_ok = isinstance(ke, ast.Call) and isinstance(ke.func, ast.Attribute) and ke.func.attr in ('casefold', 'lower') and U(ke.func.value) == f'{ds.value.id}.path'        # type: ignore[attr-defined]
+            ctx.check('C19.H4', fold_ok, fs, ds, f'the de-duplicated walk files `{ds.value.id}` under `{U(ke)[:50]}`: the key must be the case-folded path of that very file', func='FileSystemChain.walk_folder', text='de-duplication on folded path')      # type: ignore[attr-defined]
+        for sd in setdefs:
+            if sd.func.value.id != dname:        # type: ignore[attr-defined]
+                continue
+            ctx.check('C19.H4', True, fs, sd, 'setdefault keeps the first', func='FileSystemChain.walk_folder', text='de-duplicated walk keeps the first member')
+            ke = sd.args[0]
+            fold_ok = isinstance(ke, ast.Call) and isinstance(ke.func, ast.Attribute) and ke.func.attr in ('casefold', 'lower') and U(ke.func.value) == f'{U(sd.args[1])}.path'
+            ctx.check('C19.H4', fold_ok, fs, sd, f'the de-duplicated walk files `{U(sd.args[1])}` under `{U(ke)[:50]}`: the key must be the case-folded path of that very file', func='FileSystemChain.walk_folder', text='de-duplication on folded path')
+    elif len(adds) != 1 or len(yields) != 1:
         ctx.shape('C19.H4', False, fs, wf, 'de-duplication set / yield not found', func='FileSystemChain.walk_folder', text='de-duplication on folded path')
     else:
         key_name = adds[0].args[0].id
@@ -480,6 +529,10 @@ def run(ctx: Any, prog: Program) -> None:
 
 
 MUTANTS = [
+    {'id': 'chain_walk_last_member_wins', 'file': 'filesys.py', 'find': "        done: set[str] = set()\n        for file in self.walk_folder_repeat(folder):\n            folded = file.path.casefold()\n            if folded in done:\n                continue\n            done.add(folded)\n            yield file\n", 'replace': "        found = {}\n        for file in self.walk_folder_repeat(folder):\n            found[file.path.casefold()] = file\n        yield from found.values()\n", 'expect': 'C19.H4'},
+    {'id': 'ok_chain_walk_setdefault', 'file': 'filesys.py', 'find': "        done: set[str] = set()\n        for file in self.walk_folder_repeat(folder):\n            folded = file.path.casefold()\n            if folded in done:\n                continue\n            done.add(folded)\n            yield file\n", 'replace': "        found = {}\n        for file in self.walk_folder_repeat(folder):\n            found.setdefault(file.path.casefold(), file)\n        yield from found.values()\n", 'expect': None, 'note': 'negative control: mapping form that keeps the first'},
+    {'id': 'raw_walk_onerror_raises', 'file': 'filesys.py', 'find': "        for dirpath, dirnames, filenames in os.walk(path):", 'replace': "        def fail(exc: OSError) -> None:\n            raise exc\n        for dirpath, dirnames, filenames in os.walk(path, onerror=fail):", 'expect': 'C19.H2'},
+    {'id': 'ok_raw_walk_onerror_none', 'file': 'filesys.py', 'find': "        for dirpath, dirnames, filenames in os.walk(path):", 'replace': "        for dirpath, dirnames, filenames in os.walk(path, onerror=None):", 'expect': None},
     {'id': 'zip_lookup_strips_leading_dots', 'file': 'filesys.py', 'find': "    def _get_file(self, name: str) -> File[Self]:\n        name = name.replace('\\\\', '/')\n        try:\n            info = self._name_to_info[name.casefold()]", 'replace': "    def _get_file(self, name: str) -> File[Self]:\n        name = name.replace('\\\\', '/').lstrip('./')\n        try:\n            info = self._name_to_info[name.casefold()]", 'expect': 'C19.H1'},
     {'id': 'zip_index_skips_empty_files', 'file': 'filesys.py', 'find': "            if not info.filename.endswith('/')\n", 'replace': "            if info.file_size and not info.filename.endswith('/')\n", 'expect': 'C19.H1'},
     {'id': 'add_sys_priority_position_one', 'file': 'filesys.py', 'find': "        if priority:\n            self.systems.insert(0, (sys, prefix))\n        else:\n            self.systems.append((sys, prefix))", 'replace': "        self.systems.insert(1 if priority else len(self.systems), (sys, prefix))", 'expect': 'C19.H4'},
